@@ -1,4 +1,5 @@
 import Tea.Proofs.ChunkedStraddle
+import Tea.Proofs.ChunkedEventsDoc
 /-
 C15 — Input longer than the read buffer decodes as if it had arrived in one piece.
 
@@ -28,7 +29,15 @@ Structure:
     runs of printable characters over ANY number of full reads (`C15_rune_run`,
     `C15_rune_straddle`), and, across one boundary after printable padding: SGR
     mouse reports, X10 mouse reports, key sequences of the table, whole bracketed
-    pastes, and any event whose cut beginning is held back (`C15_event_straddle`).
+    pastes, and any event whose cut beginning is held back (`C15_event_straddle`);
+ 6. STREAMS of events over ANY number of full reads: the general theorem
+    `C15_stream` (any table; hypotheses `StreamOK` and `CutStable`, statements about
+    detectOneMsg on explicit byte strings), its invariant `C15_stream_cut`, and the
+    proof that the event classes of the property — the grammar `Ev` of
+    `Tea/Input/StreamSpec.lean` under the decidable side conditions `WellFormed` —
+    satisfy them (`C15_events_cutStable`), hence `C15_stream_events` (any `TableOK`
+    table) and `C15_stream_doc` (the documented table), with a 587-byte example;
+ 7. the counterexample and non-vacuity examples.
 
 All theorems hold for EVERY key table `T` and list `lens` of positive lengths;
 hypotheses on the table are stated where needed and hold for bubbletea's table
@@ -36,7 +45,8 @@ hypotheses on the table are stated where needed and hold for bubbletea's table
 or DEL; `isProperPrefixOfKey T [ESC]`: some key sequence longer than one byte
 starts with ESC).  Only property theorems live here; helper lemmas are in
 `Tea/Proofs/Chunked.lean`, `Tea/Proofs/ChunkedRunes.lean`,
-`Tea/Proofs/ChunkedStraddle.lean`.
+`Tea/Proofs/ChunkedStraddle.lean`, `Tea/Proofs/ChunkedStream.lean`,
+`Tea/Proofs/ChunkedEvents.lean`, `Tea/Proofs/ChunkedEventsDoc.lean`.
 -/
 namespace Tea.Props.C15
 open Tea Tea.Input Tea.Utf8 Tea.Input.Xterm
@@ -355,7 +365,172 @@ theorem C15_paste_straddle (T : Table) (lens : List Nat) (hl : ∀ l ∈ lens, 0
   rw [paste_event_cons] at hk' hshort hheld hev ⊢
   exact C15_event_straddle T lens hl hT eof ps hp hps _ tail k _ hk hk' hcut hshort hheld hev
 
-/-! ## 6. why the unconditional statement is false of the model; non-vacuity -/
+/-! ## 6. streams over any number of reads -/
+
+/-- condition (c) of `CutStable` from a fact about a short read: an event that, standing alone,
+decodes to its message with `canHaveMoreData = false`, is — alone at the very end of a
+completely filled read — decoded to the same message or held back whole (by 1(a): the flag
+only holds back). -/
+theorem C15_cut_end_of_alone (T : Table) (lens : List Nat) (hl : ∀ l ∈ lens, 0 < l) (s : Bytes) (m : Msg)
+    (hne : s ≠ []) (h : detectOneMsg T lens s false = .ok (s.length, some m)) :
+    detectOneMsg T lens s true = .ok (s.length, some m) ∨ detectOneMsg T lens s true = .ok (0, none) := by
+  obtain ⟨w, m', hd, _, _, hz⟩ := detectOneMsg_spec T lens s true hne hl
+  by_cases hw : w = 0
+  · right; rw [hd, hw, (hz hw).1]
+  · left
+    have := detectOneMsg_true_false hd hw
+    rw [h] at this
+    rw [hd, ← this]
+
+/-- THE GENERAL THEOREM (any key table).  A stream of events `(bytes, message)`, of ANY length,
+that is well-formed for a short read (`StreamOK`: every event decodes to its message in front
+of the events after it) and stable under cuts (`CutStable`, `Tea/Input/StreamSpec.lean`: for
+every event, (a) a proper prefix alone at the end of a completely filled read is held back,
+(b) the event followed by the beginning of the next events still decodes to its message,
+(c) the event alone at the end of a completely filled read is decoded or held back whole),
+delivered as completely filled 256-byte reads followed by one short read — wherever the buffer
+boundaries fall, over any number of reads — is decoded to exactly its events, in order, each
+consuming exactly its own bytes, with nothing left over, whether the final error is EOF or
+not; and that is literally what decoding the whole input at once gives.  Nothing split, nothing
+dropped, no spurious key. -/
+theorem C15_stream (T : Table) (lens : List Nat) (hl : ∀ l ∈ lens, 0 < l) (eof : Bool)
+    (evs : List (Bytes × Msg)) (hok : StreamOK T lens evs) (hcut : CutStable T lens evs) :
+    let s := (evs.map Prod.fst).flatten
+    readAll T lens eof (readsOf bufSize s s.length) [] []
+      = .ok (evs.map (fun p => { msg := some p.2, consumed := p.1 }), []) ∧
+    readAll T lens eof (readsOf bufSize s s.length) [] [] = oneShot T lens s := by
+  have _ := hl
+  have h1 := readAll_stream T lens eof (streamBytes evs).length evs [] (streamBytes evs) []
+    hok hcut (Nat.le_refl _) rfl
+  have h2 := decodeLoop_stream_false T lens evs [] ((streamBytes evs).length + 1) hok (by omega)
+  simp only [List.nil_append, List.reverse_nil] at h1 h2
+  exact ⟨h1, by rw [h1]; exact h2.symm⟩
+
+/-- the state of the reader between two reads, spelled out (the invariant of `C15_stream`):
+after a completely filled read whose end is `k` bytes into a `StreamOK`, `CutStable` stream,
+the reader has emitted exactly the first `n` events, for some `n`, and holds back exactly the
+bytes from the start of event `n` up to the cut. -/
+theorem C15_stream_cut (T : Table) (lens : List Nat) (evs : List (Bytes × Msg))
+    (hok : StreamOK T lens evs) (hcut : CutStable T lens evs) (k : Nat)
+    (hk : k ≤ ((evs.map Prod.fst).flatten).length) :
+    ∃ n left, decodeLoop T lens true (k + 1) (((evs.map Prod.fst).flatten).take k) []
+        = .ok ((evs.take n).map (fun p => { msg := some p.2, consumed := p.1 }), left) ∧
+      left ++ ((evs.map Prod.fst).flatten).drop k = ((evs.drop n).map Prod.fst).flatten := by
+  obtain ⟨n, left, h1, h2⟩ := decodeLoop_cut T lens evs hok hcut k (k + 1) [] hk (by omega)
+  exact ⟨n, left, by simpa using h1, h2⟩
+
+/-- THE EVENT CLASSES OF THE PROPERTY satisfy the hypotheses of `C15_stream`, for every key
+table with the `TableOK` properties: a stream built from the grammar `Ev`
+(`Tea/Input/StreamSpec.lean`) — maximal runs of printable characters (multi-byte ones
+included), key sequences of the table (CSI / SS3 keys, alt variants, control characters,
+space), SGR and X10 mouse reports, bracketed pastes of ANY length (also longer than the
+buffer), CSI sequences unknown to the table, NUL — under the decidable side conditions
+`WellFormed`, is `StreamOK` and `CutStable`. -/
+theorem C15_events_cutStable (T : Table) (lens : List Nat) (hT : TableOK T lens) (evs : List Ev)
+    (hwf : WellFormed T evs = true) :
+    StreamOK T lens (evStream evs) ∧ CutStable T lens (evStream evs) :=
+  evStream_ok hT evs hwf
+
+/-- hence: every well-formed stream of such events, of any length, in any order, with the
+256-byte boundaries anywhere (inside a multi-byte character, a key sequence, a mouse report,
+a paste or its markers, a CSI sequence; right after an event; several boundaries inside one
+event), read in completely filled reads followed by a short read, is decoded to exactly
+`evs.map Ev.msg`, each message consuming exactly `Ev.bytes` of its event — and that is the
+one-shot decoding of the whole input. -/
+theorem C15_stream_events (T : Table) (lens : List Nat) (hT : TableOK T lens) (eof : Bool) (evs : List Ev)
+    (hwf : WellFormed T evs = true) :
+    let s := (evs.map Ev.bytes).flatten
+    readAll T lens eof (readsOf bufSize s s.length) [] []
+      = .ok (evs.map (fun e => { msg := some e.msg, consumed := e.bytes }), []) ∧
+    readAll T lens eof (readsOf bufSize s s.length) [] [] = oneShot T lens s := by
+  obtain ⟨hok, hcut⟩ := evStream_ok hT evs hwf
+  have h := C15_stream T lens hT.lensPos eof (evStream evs) hok hcut
+  have e1 : ((evStream evs).map Prod.fst) = evs.map Ev.bytes := by simp [evStream]
+  have e2 : (evStream evs).map (fun p => ({ msg := some p.2, consumed := p.1 } : Out))
+      = evs.map (fun e => { msg := some e.msg, consumed := e.bytes }) := by simp [evStream]
+  simp only [e1, e2] at h
+  exact h
+
+/-- the table the code derives from the documented table, and the lengths it tries (the same
+definitions as in `Tea/Props/C08.lean`) -/
+abbrev docTable : Table := deriveExt Tea.Doc.sequences
+abbrev docLens : List Nat := descLengths docTable
+
+theorem C15_doc_wf : WFTable docTable := wfTable_of_B (by decide +kernel)
+
+/-- the derived documented table satisfies every table hypothesis of `C15_stream_events` -/
+theorem C15_doc_tableOK : TableOK docTable docLens where
+  consistent := consistent_deriveExt (by decide +kernel) (by decide +kernel)
+  introFree := by decide +kernel
+  wf := C15_doc_wf
+  esc := by decide +kernel
+  lensDesc := descLengths_pairwise _
+  lensAll := fun e he => (mem_descLengths _ _).2 ⟨e, he, rfl⟩
+  lensPos := descLengths_pos (fun e he => by
+    obtain ⟨c, tl, h, _⟩ := C15_doc_wf e he
+    rw [h]; simp)
+
+/-- which keys of the documented table the grammar accepts: EVERY entry of the derived table
+(the 142 documented sequences, their alt variants, the control characters with and without
+ESC, space, alt+space) except three: `ESC ESC` (alt+escape: a proper prefix of every alt
+variant, inherently ambiguous at the end of a buffer) and urxvt's `ESC [ 7 $` / `ESC [ 8 $`
+(shift+home / shift+end: `$` is a CSI intermediate byte, so the decoder's own
+`isIncompleteEvent` test takes them for unfinished CSI sequences). -/
+theorem C15_doc_keys_ok : ∀ e ∈ docTable,
+    e.seq ≠ [27, 27] → e.seq ≠ [27, 91, 55, 36] → e.seq ≠ [27, 91, 56, 36] →
+    (Ev.key e).ok docTable = true := by
+  intro e he h1 h2 h3
+  simp only [Ev.ok, Bool.and_eq_true, decide_eq_true_eq]
+  exact ⟨he, docKeys_stable e he h1 h2 h3⟩
+
+/-- NUL is accepted: no key of the documented table starts with it -/
+theorem C15_doc_nul_ok : Ev.nul.ok docTable = true := by decide +kernel
+
+/-- THE DOCUMENTED TABLE: every well-formed stream of events over the documented key table,
+read in full-buffer chunks = one-shot decoding = `evs.map Ev.msg`. -/
+theorem C15_stream_doc (eof : Bool) (evs : List Ev) (hwf : WellFormed docTable evs = true) :
+    let s := (evs.map Ev.bytes).flatten
+    readAll docTable docLens eof (readsOf bufSize s s.length) [] []
+      = .ok (evs.map (fun e => { msg := some e.msg, consumed := e.bytes }), []) ∧
+    readAll docTable docLens eof (readsOf bufSize s s.length) [] [] = oneShot docTable docLens s :=
+  C15_stream_events docTable docLens C15_doc_tableOK eof evs hwf
+
+/-- a concrete stream of 587 bytes (three reads: 256, 256, 75) with every event kind:
+text with 2-, 3- and 4-byte characters, up arrow, an SGR report, an X10 report, an unknown CSI
+sequence, enter, NUL, text, an SGR report that straddles the first boundary (bytes 254–265), a paste
+of 300 bytes (longer than the buffer) that straddles the second boundary (bytes 266–577),
+ctrl+up, text -/
+def demoStream : List Ev :=
+  [ .run (List.replicate 100 0x61 ++ [0xe9, 0x4e16, 0x1f600]),
+    .key { seq := [27, 91, 65], key := { type := -2 } },
+    .sgr 0 10 5 77,
+    .x10 32 33 34,
+    .csi [57, 57, 57] [] 122,
+    .key { seq := [13], key := { type := 13 } },
+    .nul,
+    .run (List.replicate 118 0x62),
+    .sgr 2 120 40 109,
+    .paste (List.replicate 300 0x63),
+    .key { seq := [27, 91, 49, 59, 53, 65], key := { type := -16 } },
+    .run [0x65, 0x6e, 0x64] ]
+
+/-- the side conditions hold (decidable), the stream is longer than two buffers, and the two
+boundaries fall inside the second SGR report and inside the paste -/
+theorem C15_demo_wellFormed : WellFormed docTable demoStream = true ∧
+    ((demoStream.map Ev.bytes).flatten).length = 587 ∧
+    (((demoStream.take 8).map Ev.bytes).flatten).length = 254 ∧
+    (((demoStream.take 9).map Ev.bytes).flatten).length = 266 ∧
+    (((demoStream.take 10).map Ev.bytes).flatten).length = 578 := by
+  refine ⟨by decide +kernel, by decide +kernel, by decide +kernel, by decide +kernel, by decide +kernel⟩
+
+/-- non-vacuity of `C15_stream_doc`: the demo stream, read as 256 + 256 + 75 bytes, gives
+exactly its twelve messages (through the theorem, no computation of the reader) -/
+example : readAll docTable docLens true
+      (readsOf bufSize (demoStream.map Ev.bytes).flatten (demoStream.map Ev.bytes).flatten.length) [] []
+    = .ok (demoStream.map (fun e => { msg := some e.msg, consumed := e.bytes }), []) :=
+  (C15_stream_doc true demoStream C15_demo_wellFormed.1).1
+
+/-! ## 7. why the unconditional statement is false of the model; non-vacuity -/
 
 /- `T0` (`Tea/Proofs/ChunkedStraddle.lean`) is a one-entry table, the up-arrow key `ESC [ A`;
 `malformed` is 247 letters, then `ESC [ < a 1 ; 2 ;` up to the 256-byte boundary, then `3 M`. -/
